@@ -334,12 +334,13 @@ def _norm(v, n):
     return v + n if v < 0 else v
 
 
-def kget_area_negative_rows(r0: int, r1: int, y: int, tt: int, x: int, z: int, j: int) -> bool:
+def kget_area_negative_rows(r0: int, r1: int, y: int, tt: int, z: int, j: int) -> bool:
     """
     pre: 1 <= r0 <= 2 and 1 <= r1 <= 2
-    pre: -(r0 + r1) <= y <= 3 and -(r0 + r1) <= tt <= 3 and -2 <= x <= 1 and -2 <= z <= 1 and 0 <= j <= 3
+    pre: -(r0 + r1) <= y <= 2 and -(r0 + r1) <= tt <= 2 and -2 <= z <= -1 and 0 <= j <= 2
     post: _
     """
+    x = 0
     # C19: in a 4-tuple area negative numbers count from the current end (rows from the height,
     # columns from the width) for get_values / get_cells / get_rows alike
     t = mktab(r0, r1, 1, 1)
